@@ -126,6 +126,7 @@ func Load(cfg LoadConfig) (*Prog, error) {
 	prog, _ := ssautil.AllPackages(pkgs, ssa.InstantiateGenerics)
 	prog.Build()
 	p.SSA = prog
+	theProg = p
 	p.allFns = ssautil.AllFunctions(prog)
 	p.funcs = map[string]*ssa.Function{}
 	for f := range p.allFns {
